@@ -21,6 +21,7 @@ def check(run, tier):
     traces += E.random_histories(run, n, m, common.SEED, genkw={"weights": w, "users": ("alice", "bob")},
                                  batch_p=0.8)
     traces += injected_failures(run, quick)
+    traces += over_connections(run, quick)
     E.judge(run, traces, only=ONLY, name="c08")
     E.summarise(run, traces)
     for t in traces:
@@ -82,3 +83,50 @@ def injected_failures(run, quick):
                     drv.close()
     run.extra["injected_internal_errors"] = k
     return traces
+
+
+def _conn_history(args):
+    """Batches sent over persistent client connections (one KmipSession per user).  Between them the same clients send
+    read-only requests that carry a small Maximum Response Size (those are not part of the trace: a client that asks for a
+    limit accepts Response Too Large).  Every recorded request carries NO limit, so each executed item must be reported."""
+    from .. import engdrv as D, engtrace as T, enggen as G
+    tid, seed, nreq = args
+    common.scratch()
+    D.CLOCK.now = 3000000 + (seed % 1000) * 1000
+    drv = D.SessionDriver(intern=E.new_interner())
+    try:
+        rec = T.Recorder(drv, tid)
+        w = {"Create": 3, "Register": 3, "Activate": 2, "Revoke": 2, "Destroy": 2, "Attr": 4, "Get": 1, "GetAttributes": 1}
+        gen = G.Gen(seed, users=("alice", "bob"), weights=w)
+        limited = 0
+        for i in range(nreq):
+            D.CLOCK.now += gen.r.choice([0, 1, 2])
+            if gen.r.random() < 0.3:
+                q = D.one(gen.r.choice(["Query", "DiscoverVersions"]), {}, user=gen.r.choice(["alice", "bob"]),
+                          maxsize=gen.r.choice([8, 64, 256, 100000]))
+                drv.send(q)
+                limited += 1
+            req = gen.request(0.7)
+            res = rec.request(req)
+            gen.observe(res, drv.state())
+        rec.close()
+        tr = rec.trace()
+        tr["raw"] = rec.raw
+        tr["limited"] = limited
+        return tr
+    finally:
+        drv.close()
+
+
+def over_connections(run, quick):
+    import multiprocessing
+    from .. import sessdrv as S
+    for u in ("alice", "bob"):
+        S.make_cert(1, "client", cn=u)
+    E.rsa_pair()
+    n, m = (16, 30) if quick else (128, 50)
+    with multiprocessing.Pool(common.NCPU) as pool:
+        out = pool.map(_conn_history, [("conn%d" % i, common.SEED * 7919 + i, m) for i in range(n)])
+    run.extra["connection_histories"] = {"histories": n, "requests_each": m,
+                                         "size_limited_requests_in_between": sum(t.pop("limited") for t in out)}
+    return out
